@@ -79,7 +79,7 @@ pub fn map_code(check: &str, v: &Viol) -> Option<&'static str> {
             _ => None,
         },
         "C11" => match g {
-            "capture_late" => Some("C11.capture_late"),
+            "capture_late" if v.evk != Some(EvKind::Joiner) => Some("C11.capture_late"),
             "capture_early" => Some("C11.capture_early"),
             "capture_order" => Some("C11.capture_order"),
             "events_missing" | "events_extra" if v.evk == Some(EvKind::Cap) => Some("C11.capture_count"),
@@ -102,6 +102,7 @@ pub fn map_code(check: &str, v: &Viol) -> Option<&'static str> {
             "event_args" if v.evk == Some(EvKind::Joiner) => Some("C16.joiner_arity"),
             "value" | "unexpected_panic" => Some("C16.value"),
             "branch_order" | "barrier" => Some("C16.joiner_order"),
+            "capture_late" if v.evk == Some(EvKind::Joiner) => Some("C16.not_lazy"),
             _ => None,
         },
         "C17" => match g {
@@ -219,6 +220,7 @@ pub fn plan_to_json(p: &Plan) -> Value {
         "ready_pm": p.ready_pm,
         "ready_seed": p.ready_seed.to_string(),
         "yield_pm": p.yield_pm,
+        "migrate_at": p.migrate_at,
     })
 }
 
@@ -259,6 +261,7 @@ pub fn plan_from_json(v: &Value) -> Plan {
     p.ready_pm = v["ready_pm"].as_u64().unwrap_or(0) as u32;
     p.ready_seed = v["ready_seed"].as_str().and_then(|x| x.parse().ok()).unwrap_or(0);
     p.yield_pm = v["yield_pm"].as_u64().unwrap_or(0) as u32;
+    p.migrate_at = v["migrate_at"].as_u64().map(|x| x as u32);
     if let Some(a) = v["stuck"].as_array() {
         for x in a {
             p.stuck.insert((x[0].as_u64().unwrap_or(0) as u32, x[1].as_u64().unwrap_or(0) as u32));
@@ -520,6 +523,9 @@ fn record_stats(st: &mut Stats, prog: &Prog, kind: Kind, plan: &Plan, strat: Str
     }
     if ev.obs.yields > 0 {
         Stats::bump(f, "F-yield", ev.obs.yields);
+    }
+    if ev.obs.migrated {
+        Stats::bump(f, "F-migrate", 1);
     }
     if ev.obs.stale_wakes > 0 {
         Stats::bump(&mut st.probes, "wake_through_stale_waker_ignored", ev.obs.stale_wakes);
@@ -852,6 +858,10 @@ fn plans_for(mode: PlanMode, check: &str, prog: &Prog, kind: Kind, b: Budget, se
             if p.ready_pm > 0 || p.yield_pm > 0 {
                 p.ready_seed = rng.next();
             }
+            // F-migrate: in a sixth of the plans of the task-spawning macros the future changes its runtime between two steps
+            if kind.is_spawn() && p.cancel_at.is_none() && rng.below(6) == 0 {
+                p.migrate_at = Some(2 + rng.below(14) as u32);
+            }
         }
     }
     out
@@ -947,6 +957,11 @@ pub fn minimise(check: &str, prog: &Prog, f: &mut Failure) -> (Eval, u32) {
     if f.plan.yield_pm != 0 {
         let mut c = f.plan.clone();
         c.yield_pm = 0;
+        try_plan!(c);
+    }
+    if f.plan.migrate_at.is_some() {
+        let mut c = f.plan.clone();
+        c.migrate_at = None;
         try_plan!(c);
     }
     if f.plan.input_seed != 0 {
